@@ -163,7 +163,28 @@ impl ISocketConnection for ZmtpSmartConnection {
   }
 
   async fn close_connection(&self) -> Result<(), ZmqError> {
-    Ok(())
+    // The worker drops its end of the egress channel when the fd has been closed; the fd
+    // number may belong to another connection by now.
+    if self.egress_tx.is_closed() {
+      return Ok(());
+    }
+    static CLOSE_OP_UD: std::sync::atomic::AtomicU64 = std::sync::atomic::AtomicU64::new(1 << 56);
+    let (reply_tx, reply_rx) = fibre::oneshot::oneshot();
+    let req = crate::io_uring_backend::ops::UringOpRequest::ShutdownConnectionHandler {
+      user_data: CLOSE_OP_UD.fetch_add(1, Ordering::Relaxed),
+      fd: self.fd,
+      reply_tx,
+    };
+    let worker_op_tx = crate::uring::global_state::get_global_uring_worker_op_tx()?;
+    worker_op_tx.send(req).await.map_err(|e| {
+      ZmqError::Internal(format!("UringWorker op channel error for close: {}", e))
+    })?;
+    match tokio::time::timeout(Duration::from_secs(5), reply_rx.recv()).await {
+      Ok(Ok(Ok(_))) => Ok(()),
+      Ok(Ok(Err(e))) => Err(e),
+      Ok(Err(_)) => Err(ZmqError::Internal("UringWorker reply channel error for close".into())),
+      Err(_) => Err(ZmqError::Timeout),
+    }
   }
 
   fn as_any(&self) -> &dyn Any {
